@@ -14,7 +14,7 @@ another to the callee's proof:
 import time
 import z3
 
-from .values import (SNum, SBool, SBytes, Opaque, Obj, Unsupported, Infeasible, CUR, to_term, to_bool_term,
+from .values import (SNum, SBool, SBytes, Opaque, Obj, Unsupported, Infeasible, LoopCut, CUR, to_term, to_bool_term,
                      mk_num, mk_bool, bytes_eq_term, fresh_name)
 from .interp import (Interp, PyExc, Ret, BEXC, BCls, Cls, Func, BoundMethod, Builtin, is_subclass, _MISSING)
 from .paths import Path, Outcome, explore
@@ -49,9 +49,10 @@ ANY = Any()
 
 
 class SpecCtx(object):
-    def __init__(self, it, mode):
+    def __init__(self, it, mode, unit=None):
         self.it = it
         self.mode = mode     # 'verify' | 'apply'
+        self.unit = unit     # short name of the function being verified / applied
 
     def branch(self, c):
         if isinstance(c, (SBool, SNum)) or z3.is_expr(c):
@@ -99,8 +100,13 @@ class SpecCtx(object):
             self.it.p.ghost.setdefault('alts', []).append((name, choice, observe))
         return choice
 
-    def requires(self, cond, name):
-        """precondition: assumed when the function itself is verified, an obligation at every call site"""
+    def requires(self, cond, name, own=None):
+        """precondition: assumed when the function itself is verified, an obligation at every call site.
+        Spec programs are composed by plain calls; a precondition is inherited by the composing spec unless
+        it is tagged own=<function name>: then it only counts when that function is the one being
+        verified / applied (so a callee's precondition does not silently restrict its callers' proofs)."""
+        if own is not None and self.unit not in (own if isinstance(own, (tuple, list)) else (own,)):
+            return
         if isinstance(cond, (SBool,)):
             cond = cond.t
         if isinstance(cond, bool):
@@ -284,13 +290,15 @@ class Contract(object):
         env = it.bind(func, args, kw)
         params = [a.arg for a in func.node.args.posonlyargs + func.node.args.args]
         vals = [env[pn] for pn in params]
-        c = SpecCtx(it, 'apply')
+        c = SpecCtx(it, 'apply', self.qual.split('.')[-1])
         sp = self.spec(c, *vals)
         if self.mark:
             it.p.effect('Call', self.qual, tuple(vals[1:]) if func.cls is not None else tuple(vals))
         perform(it, sp)
         if sp.exc is not None:
             raise PyExc(make_exc(it, sp.exc))
+        if isinstance(sp.ret, Any):
+            return Opaque('unspecified result of %s' % self.qual)
         return sp.ret
 
 
@@ -325,6 +333,8 @@ def perform(it, sp):
 def compare(it, sp, pre_snap, roots, eff0, outcome, prefix):
     """emit obligations: post-heap == pre-heap + updates (frame), effects == spec effects, outcome"""
     p = it.p
+    if getattr(sp, 'loop_abstract', False):
+        return compare_outcome_only(it, sp, outcome, prefix)
     upd = {}
     for (cont, key, val) in sp.updates:
         upd[(id(cont), key)] = val
@@ -348,6 +358,8 @@ def compare(it, sp, pre_snap, roots, eff0, outcome, prefix):
             g = []
             if not same_value(exp, got, g, w):
                 definite.append(('update:' if (cid, k) in upd else 'frame:') + w)
+            elif not g and (cid, k) in upd:
+                goals.append(('update:' + w, z3.BoolVal(True)))      # identical terms: discharged syntactically
             for (ww, t) in g:
                 goals.append((('update:' if (cid, k) in upd else 'frame:') + ww, t))
     # updates that target objects not in the pre-snapshot (e.g. containers created by the function) are ignored here
@@ -404,6 +416,73 @@ def compare(it, sp, pre_snap, roots, eff0, outcome, prefix):
         p.prove('%s/ok' % prefix, z3.BoolVal(True))
 
 
+def compare_outcome_only(it, sp, outcome, prefix):
+    p = it.p
+    if outcome.kind == 'raise' and sp.exc is None:
+        p.prove('%s/outcome:' % prefix, z3.BoolVal(False),
+                detail='outcome: raised %s, spec says returns' % outcome.value.clsname)
+    elif outcome.kind == 'return' and sp.exc is not None:
+        p.prove('%s/outcome:' % prefix, z3.BoolVal(False), detail='outcome: returned, spec says raises')
+    else:
+        p.prove('%s/outcome-ok' % prefix, z3.BoolVal(True))
+    for name, fn in sp.post:
+        p.prove('%s/post:%s' % (prefix, name), fn())
+
+
+def havoc_heap(it, roots, skip=(), skip_keys=()):
+    """replace every scalar leaf reachable from roots by a fresh unknown of the same kind"""
+    snap = snapshot(roots)
+    for cid, (cont, fields) in snap.items():
+        if any(cont is x for x in skip):
+            continue
+        for k, v in fields.items():
+            if k in skip_keys:
+                continue
+            if isinstance(v, (SNum, SBool, SBytes, bytes)) or (isinstance(v, (int, float)) and not isinstance(v, bool)) \
+                    or isinstance(v, bool):
+                new = it.havoc_value(v, 'loop havoc')
+                if isinstance(cont, Obj):
+                    cont.f[k] = new
+                else:
+                    cont[k] = new
+
+
+def make_while_rule(inv, variant, havoc, lineno=None):
+    """classic loop rule: inv on entry; havoc; assume inv; one arbitrary iteration must preserve inv and
+    decrease the variant (>= 0); after the loop: inv and not test"""
+    import ast as _ast
+
+    def rule(it, node, env, itval):
+        if not isinstance(node, _ast.While) or (lineno is not None and node.lineno != lineno):
+            return _MISSING
+        p = it.p
+        tag = 'loop@%d' % node.lineno
+        for n, t in inv(it, env):
+            p.prove('%s/inv-entry/%s' % (tag, n), t)
+        havoc(it, env)
+        for n, t in inv(it, env):
+            p.assume(t)
+        if not p.check_feasible_now():
+            raise Infeasible()
+        v0 = variant(it, env)
+        if it.truth(it.ev(node.test, env)):
+            from .interp import Brk, Cont
+            try:
+                it.run(node.body, env)
+            except Cont:
+                pass
+            except Brk:
+                return None
+            for n, t in inv(it, env):
+                p.prove('%s/inv-preserved/%s' % (tag, n), t)
+            v1 = variant(it, env)
+            p.prove('%s/variant-decreases' % tag, z3.And(v0 >= 0, v1 < v0))
+            raise LoopCut()
+        it.run(node.orelse, env)
+        return None
+    return rule
+
+
 class VerifyResult(object):
     def __init__(self, qual):
         self.qual = qual
@@ -436,7 +515,7 @@ def verify(prog, qual, build, spec, light=False, inline=None, name=None, max_pat
             env = it.bind(f, args, kw)
             params = [a.arg for a in f.node.args.posonlyargs + f.node.args.args]
             vals = [env[pn] for pn in params]
-            c = SpecCtx(it, 'verify')
+            c = SpecCtx(it, 'verify', qual.split('.')[-1])
             sp = spec(c, *vals)
             pre = snapshot(roots)
             eff0 = len(p.effects)
@@ -460,12 +539,20 @@ def verify(prog, qual, build, spec, light=False, inline=None, name=None, max_pat
             if on_path is not None:
                 on_path(it, out, sp)
             return out
+        except LoopCut:
+            raise
         except Unsupported as e:
             return Outcome('unsupported', str(e))
     outs = explore(run_one, max_paths=max_paths, time_budget_s=time_budget_s)
     res.explore_s = time.time() - t0
     for i, o in enumerate(outs):
         if o.kind == 'cut':
+            continue
+        if o.kind == 'loopcut':
+            for ob in o.path.obligations:
+                ob.path_id = i
+                res.obligations.append(ob)
+            res.loop_paths = getattr(res, 'loop_paths', 0) + 1
             continue
         res.paths += 1
         o.path_id = i
